@@ -4,8 +4,8 @@ import FP.Model.Json
 # FP.Model.Enc.MGS — `MinGenSet` (`flowpaths/mingenset.py`)
 
 * `mgsPreprocess` — the `__init__` treatment of `numbers`: copy; `remove_sums_of_two` is dead code
-  (`if False and …`); `remove_complement_values` collects `total - val` whenever it occurs in the list and is
-  strictly larger than `val`, plus every `val` equal to `total` or `0`, and then takes
+  (`if False and …`); `remove_complement_values` collects `total - val` whenever `max_multiplicity == 1`,
+  it occurs in the list and is strictly larger than `val`, plus every `val` equal to `total` or `0`, and then takes
   `list(set(numbers) - elements_to_remove)` (so duplicates disappear *only* when the flag is set; the
   order of the resulting python list is hash order and is an input of the LP generator).
 * `mgsLP` — `_create_solver(k)`: `gen_set`, `x`, `pi` columns, row `total`, the product rows
@@ -17,11 +17,14 @@ import FP.Model.Json
 namespace FP
 
 /-- `__init__`: what `self.numbers` holds after the constructor, as a list without a meaningful order
-when `removeComplement` (python: `list(set(..) - set(..))`), and the untouched copy otherwise -/
-def mgsPreprocess (numbers : List Rat) (total : Rat) (removeComplement : Bool) : List Rat :=
+when `removeComplement` (python: `list(set(..) - set(..))`), and the untouched copy otherwise. Since fix
+20bda28 the larger of `x`, `total - x` is dropped only for `max_multiplicity == 1`; `total` and `0` are
+dropped for every multiplicity. -/
+def mgsPreprocess (numbers : List Rat) (total : Rat) (removeComplement : Bool) (maxMult : Nat := 1) :
+    List Rat :=
   if !removeComplement then numbers else
   let toRemove : List Rat := numbers.flatMap fun v =>
-    (if numbers.contains (total - v) && decide (total - v > v) then [total - v] else [])
+    (if decide (maxMult = 1) && numbers.contains (total - v) && decide (total - v > v) then [total - v] else [])
     ++ (if v == total || v == 0 then [v] else [])
   numbers.eraseDups.filter fun v => !toRemove.contains v
 
@@ -106,7 +109,8 @@ def handleMGS (op : String) (j : Json) : Option (Except String Json) :=
     let numbers ← jList asRat j "numbers"
     let total ← jRat j "total"
     let rc := (jBool j "remove_complement").toOption.getD true
-    let pre := mgsPreprocess numbers total rc
+    let mm := (jNat j "max_multiplicity").toOption.getD 1
+    let pre := mgsPreprocess numbers total rc mm
     let after : Option (List Rat) := match j.getObjVal? "numbers_after" with
       | .ok Json.null => none
       | .ok v => (asList asRat v).toOption
@@ -122,7 +126,7 @@ def handleMGS (op : String) (j : Json) : Option (Except String Json) :=
     let inp : MGSInput :=
       { numbers := ordered, total := total,
         weightInt := (jStr j "weight_type").toOption == some "int",
-        maxMult := (jNat j "max_multiplicity").toOption.getD 1,
+        maxMult := mm,
         partition := part }
     let k ← jNat j "k"
     let lp := mgsLP inp k
